@@ -94,6 +94,8 @@ def cmp_c12(case, got):
         return [("the CLI failed to build its filterer: %s" % (got.get("error") or "panic"), "error")]
     bad = []
     flags = " ".join("--" + f for f in sorted(case["flags"])) or "(no flags)"
+    if case.get("watchfile"):
+        flags += " (with -w on the file the VCS ignore file names)"
     e = case["expect"]
     def chk(name, want, gotv, key):
         if gotv is not want:
